@@ -16,7 +16,9 @@ External and assumed (validated by the correspondence, not proved): the json tex
 -/
 namespace NessaiVerif.Encode
 
-inductive Err | type | value | os | runtime
+/-- `malformed`: the tree does not denote a Python value (an array whose element count is not the product of its
+shape); never produced for real inputs -/
+inductive Err | type | value | os | runtime | malformed
 deriving DecidableEq, Repr
 
 /-- dictionary keys: `bad` = a key the json module rejects (np.int64, tuple, …) -/
@@ -166,10 +168,12 @@ def jsonEncode (c : Chain) (fb : Fallback) : Tree → Except Err Tree
   | .bool b => .ok (.bool b)
   | .npStr s => .ok (.str s)            -- np.str_ is a str subclass: native
   | .ndarray _ shape flat =>
+    if flat.length ≠ prod shape then .error .malformed else
     match defaultAction c fb .ndarray with
     | some .tolist => do pure (nest shape (← jsonEncodeList c fb flat))
     | _ => .error .type
   | .structured names nrows cells =>
+    if cells.length ≠ nrows * names.length then .error .malformed else
     match defaultAction c fb .ndarray with
     | some .tolist => do pure (nest [nrows, names.length] (← jsonEncodeList c fb cells))
     | _ => .error .type
@@ -295,6 +299,10 @@ def upsert (k : Key) (v : Tree) : List (Key × Tree) → List (Key × Tree)
 def saveKwargs (c : Chain) (fb : Fallback) (extra : List (String × Tree)) (kwargs : List (Key × Tree)) :
     Except Err Tree :=
   jsonEncode c fb (.dict (extra.foldl (fun d e => upsert (.str e.1) e.2 d) kwargs))
+
+/-- the dictionary `save_kwargs` hands to `save_to_json` -/
+def kwargsDict (extra : List (String × Tree)) (kwargs : List (Key × Tree)) : Tree :=
+  .dict (extra.foldl (fun d e => upsert (.str e.1) e.2 d) kwargs)
 
 inductive Format | json | hdf5
 deriving DecidableEq, Repr
@@ -449,6 +457,72 @@ def H5SafeKvs (sentinel : String) : List (Key × Tree) → Prop
   | [] => True
   | (k, v) :: rest =>
     (∃ s, k = .str s ∧ segs s = [s]) ∧ k ∉ keysOf rest ∧ H5Safe sentinel v ∧ H5SafeKvs sentinel rest
+end
+
+/-! ## representation invariants and `json.load`'s dictionary semantics -/
+
+/-- the text of a key in the JSON file -/
+def renderKey (k : Key) : String :=
+  match jsonKey k with
+  | .ok s => s
+  | .error _ => ""
+
+/-- `json.load` builds a dict by assignment: a repeated key keeps its first position and its last value -/
+def dedupKvs (kvs : List (Key × Tree)) : List (Key × Tree) :=
+  kvs.foldl (fun d e => upsert e.1 e.2 d) []
+
+mutual
+/-- what `json.load` makes of the parsed file content (object members in file order) -/
+def jsonLoad : Tree → Tree
+  | .dict kvs => .dict (dedupKvs (jsonLoadKvs kvs))
+  | .list xs => .list (jsonLoadList xs)
+  | t => t
+def jsonLoadList : List Tree → List Tree
+  | [] => []
+  | x :: xs => jsonLoad x :: jsonLoadList xs
+def jsonLoadKvs : List (Key × Tree) → List (Key × Tree)
+  | [] => []
+  | (k, v) :: rest => (k, jsonLoad v) :: jsonLoadKvs rest
+end
+
+/-- write with `save_to_json`, read with `json.load` -/
+def jsonRoundTrip (c : Chain) (fb : Fallback) (t : Tree) : Except Err Tree :=
+  match jsonEncode c fb t with
+  | .ok j => .ok (jsonLoad j)
+  | .error e => .error e
+
+mutual
+/-- in every dictionary the keys are distinct *as written to the file* (`{1: …, "1": …}` is excluded) -/
+def KeysDistinct : Tree → Prop
+  | .dict kvs => ((keysOf kvs).map renderKey).Nodup ∧ KeysDistinctKvs kvs
+  | .list xs => KeysDistinctList xs
+  | .tuple xs => KeysDistinctList xs
+  | .ndarray _ _ flat => KeysDistinctList flat
+  | .structured _ _ cells => KeysDistinctList cells
+  | _ => True
+def KeysDistinctList : List Tree → Prop
+  | [] => True
+  | x :: xs => KeysDistinct x ∧ KeysDistinctList xs
+def KeysDistinctKvs : List (Key × Tree) → Prop
+  | [] => True
+  | (_, v) :: rest => KeysDistinct v ∧ KeysDistinctKvs rest
+end
+
+mutual
+/-- every array holds exactly as many elements as its shape says (true of every numpy array) -/
+def WellShaped : Tree → Prop
+  | .dict kvs => WellShapedKvs kvs
+  | .list xs => WellShapedList xs
+  | .tuple xs => WellShapedList xs
+  | .ndarray _ shape flat => flat.length = prod shape ∧ WellShapedList flat
+  | .structured names nrows cells => cells.length = nrows * names.length ∧ WellShapedList cells
+  | _ => True
+def WellShapedList : List Tree → Prop
+  | [] => True
+  | x :: xs => WellShaped x ∧ WellShapedList xs
+def WellShapedKvs : List (Key × Tree) → Prop
+  | [] => True
+  | (_, v) :: rest => WellShaped v ∧ WellShapedKvs rest
 end
 
 end NessaiVerif.Encode
